@@ -456,3 +456,33 @@ pub mod verif_problemdata {
         data.is_chordal_decomposed()
     }
 }
+
+// verification hooks (feature `verif-hooks`, add-only): the counters of the crate-private
+// presolver / chordal records that `print_configuration` shows
+#[cfg(feature = "verif-hooks")]
+#[allow(missing_docs)]
+pub mod verif_problemdata_header {
+    use super::*;
+
+    /// `presolver.count_reduced()` when a presolver object exists
+    pub fn presolve_count_reduced<T: FloatT>(data: &DefaultProblemData<T>) -> Option<usize> {
+        data.presolver.as_ref().map(|p| p.count_reduced())
+    }
+    /// `(init_psd_cone_count, decomposable_cone_count, premerge_psd_cone_count,
+    /// final_psd_cone_count)` when the problem was chordally decomposed
+    #[cfg(feature = "sdp")]
+    pub fn chordal_counts<T: FloatT>(data: &DefaultProblemData<T>) -> Option<[usize; 4]> {
+        data.chordal_info.as_ref().map(|c| {
+            [
+                c.init_psd_cone_count(),
+                c.decomposable_cone_count(),
+                c.premerge_psd_cone_count(),
+                c.final_psd_cone_count(),
+            ]
+        })
+    }
+    #[cfg(not(feature = "sdp"))]
+    pub fn chordal_counts<T: FloatT>(_data: &DefaultProblemData<T>) -> Option<[usize; 4]> {
+        None
+    }
+}
